@@ -32,7 +32,7 @@ def fj(sets=None, flavour="O2", weight=1.0, tiers=("quick", "thorough")):
     return {"bin": "mvh", "cls": "forkjoin", "sets": sets or {}, "flavour": flavour, "weight": weight, "tiers": tiers,
             "shrink": FJ_SHRINK}
 
-SYNC_SHRINK = {"nworkers": 1, "yield_pm": 0, "parent_first": 0, "nthreads": 1, "nacq": 1, "nmutex": 1, "try_pm": 0, "timed_pm": 0,
+SYNC_SHRINK = {"mode": 0, "span": 1, "nused": 1, "nops": 1, "dtor_pm": 1000, "set_pm": 1000, "null_pm": 0, "exitmode": 0, "nworkers": 1, "yield_pm": 0, "parent_first": 0, "nthreads": 1, "nacq": 1, "nmutex": 1, "try_pm": 0, "timed_pm": 0,
                "cs_points": 0, "helper_pm": 0, "np": 1, "nc": 1, "cap": 1, "k": 1, "nwaiters": 1, "rounds": 1, "n": 1,
                "racer": -1, "ndeccers": 1, "late": 0, "items": 1, "pairs": 1, "readers": 0, "ncallers": 1, "nctl": 1}
 
@@ -77,4 +77,10 @@ PROPS = {
     "C08": {"jobs": sync_jobs("uncond"), "relevant_probes": ["p_block", "uncond_spin", "uncond_wr"]},
     "C09": {"jobs": sync_jobs("felock"), "relevant_probes": BLOCK_PROBES + ["felock_status"]},
     "C14": {"jobs": sync_jobs("once"), "relevant_probes": ["once_cas", "once_spin", "once_done_wr"]},
+    "C10": {"jobs": [sy("tls", flavour="asan", weight=4), sy("tls", weight=3), sy("tls", {"mode": 2}, weight=2), sy("tls", flavour="O0", weight=1)],
+            "relevant_probes": ["key_cas", "key_rd", "p_steal_hit"],
+            "rule": "each evaluation is one simulated execution of a seeded key-usage plan (sequential create/delete/set/get history over all 1024 indices, threads with private dictionaries migrating between workers, or concurrent create/delete); non-trivial = a cross-worker preemption happened and (a thread migrated | key CASes raced | sequential history); distinct = distinct event-sequence signatures. Input coverage (key indices that held a value) is reported separately as x_key_indices_covered."},
+    "C11": {"jobs": [sy("dtor", flavour="asan", weight=4), sy("dtor", weight=3), sy("dtor", flavour="O0", weight=1)],
+            "relevant_probes": ["p_finish_waiter", "p_finish_next", "p_finish_sched"],
+            "rule": "each evaluation is one simulated execution in which threads store values under a seeded subset of keys spread over the index range (always including the highest created index, with deleted keys in between so that earlier tree branches are empty) and terminate by return / myth_exit / cancellation; non-trivial = at least one cross-worker preemption; distinct = distinct event-sequence signatures. The decisive dimension is the key subset (input), reported as x_key_indices_covered."},
 }
